@@ -272,7 +272,7 @@ fn workload(seed: u64, thorough: bool, rc: Option<(u64, u64)>, run: &mut Run) ->
         for i in my_cases(rc, STREAM_TL, n_tl, w, nw) {
             let mut out = Out { lines: vec![] };
             let mut r = Rng::derive(seed, STREAM_TL, i);
-            let shape = r.usize(6);
+            let shape = r.usize(crate::shapes::N_SHAPES);
             crate::with_shape!(shape, tl_case(&mut r, acc, &mut out, STREAM_TL, i, false));
             local.push((STREAM_TL, i, out.lines));
         }
@@ -289,7 +289,7 @@ fn workload(seed: u64, thorough: bool, rc: Option<(u64, u64)>, run: &mut Run) ->
         for i in my_cases(rc, STREAM_ANIM, n_anim, w, nw) {
             let mut out = Out { lines: vec![] };
             let mut r = Rng::derive(seed, STREAM_ANIM, i);
-            let shape = r.usize(6);
+            let shape = r.usize(crate::shapes::N_SHAPES);
             crate::with_shape!(shape, anim_case(&mut r, acc, &mut out, i));
             local.push((STREAM_ANIM, i, out.lines));
         }
